@@ -62,6 +62,9 @@ func (v *Verdict) noteDev(d *DevLog, plan *DevPlan) {
 	if d.Stalls > 0 {
 		v.fire("stall")
 	}
+	if d.DelayedMs > 0 {
+		v.fire("slow_read_simulated_time")
+	}
 	if d.Shorts > 0 {
 		v.fire("short_read")
 	}
@@ -103,6 +106,8 @@ type IOStats struct {
 	Notes     map[string]int  `json:"notes"`
 	Viol      int             `json:"violations"`
 	WallS     float64         `json:"wall_s"`
+	SimNs     int64           `json:"sim_ns"`
+	SimJumps  int64           `json:"sim_jumps"`
 	FirstIdx  int             `json:"first_idx"`
 	LastIdx   int             `json:"last_idx"`
 	sigSet    map[string]bool `json:"-"`
@@ -141,6 +146,7 @@ func (s *IOStats) add(c *Case, v *Verdict) {
 
 func (s *IOStats) finish(start time.Time) {
 	s.WallS = time.Since(start).Seconds()
+	s.SimNs, s.SimJumps = zzsimrt.SimAdvanced()
 	for k := range s.sigSet {
 		s.Sigs = append(s.Sigs, k)
 	}
